@@ -163,6 +163,60 @@ func c11MaxVar(fs ...string) int {
 	return max
 }
 
+// Go representations of lists.  In case payloads (this stream only) four reserved functors say how a
+// list is to be built on the Go side; the Lean driver reads all of them as the plain list term:
+//     '$l'(E1,..,En)       proper list, slice-backed `list`            (engine.List)
+//     '$p'(E1,..,En,Tail)  `*partial`: n elements before the bar       (engine.PartialList)
+//     '$s'(Atom)           the characters of the atom as a `charList`  (engine.CharList)
+//     '$c'(Atom)           the codes of the atom's characters, `codeList` (engine.CodeList)
+// '.'(H,T) stays a '.'/2 compound cell, [] the atom.  Solutions and answers are printed through the
+// Compound interface, so every representation prints as the same '.'/2 chain.
+func c11Rep(t engine.Term) engine.Term {
+	c, ok := t.(engine.Compound)
+	if !ok {
+		return t
+	}
+	args := make([]engine.Term, c.Arity())
+	for i := range args {
+		args[i] = c11Rep(c.Arg(i))
+	}
+	switch c.Functor().String() {
+	case "$l":
+		return engine.List(args...)
+	case "$p":
+		return engine.PartialList(args[len(args)-1], args[:len(args)-1]...)
+	case "$s":
+		return engine.CharList(args[0].(engine.Atom).String())
+	case "$c":
+		return engine.CodeList(args[0].(engine.Atom).String())
+	}
+	return c.Functor().Apply(args...)
+}
+
+// c11Reps collects the Go encodings met in a resolved term (for the distribution tags).
+func c11Reps(t engine.Term, env *engine.Env, acc map[string]bool, depth int) {
+	if depth > 64 {
+		return
+	}
+	t = env.Resolve(t)
+	c, ok := t.(engine.Compound)
+	if !ok {
+		return
+	}
+	rep := engine.VerifTermRep(t)
+	switch {
+	case strings.HasPrefix(rep, "partial"):
+		acc["partial"] = true
+	case rep == "list" || rep == "charList" || rep == "codeList":
+		acc[rep] = true
+	case c.Functor().String() == "." && c.Arity() == 2:
+		acc["cons"] = true
+	}
+	for i := 0; i < c.Arity(); i++ {
+		c11Reps(c.Arg(i), env, acc, depth+1)
+	}
+}
+
 func runC11(payload string) string {
 	f := c11Fields(payload)
 	if len(f) != 6 {
@@ -175,7 +229,7 @@ func runC11(payload string) string {
 		d := newTermDecoder()
 		ts, err := d.terms(cl)
 		must(err)
-		if r := solveOnce(vm, compound("assertz", ts[0])); r != "true" {
+		if r := solveOnce(vm, compound("assertz", c11Rep(ts[0]))); r != "true" {
 			panic("c11: assertz: " + r)
 		}
 	}
@@ -192,7 +246,7 @@ func runC11(payload string) string {
 	for _, b := range c11SplitOps(f[2]) {
 		ts, err := d.terms(b)
 		must(err)
-		binds = append(binds, ts[0])
+		binds = append(binds, c11Rep(ts[0]))
 	}
 	dec1 := func(s string) engine.Term {
 		ts, err := d.terms(s)
@@ -200,7 +254,7 @@ func runC11(payload string) string {
 		if len(ts) != 1 {
 			panic("c11: expected one term")
 		}
-		return ts[0]
+		return c11Rep(ts[0])
 	}
 	tmpl, goal, inst := dec1(f[3]), dec1(f[4]), dec1(f[5])
 	// The call-time bindings are made with Env.Unify and the built-in is invoked directly (not through
@@ -252,8 +306,10 @@ func runC11(payload string) string {
 	for n := range wv {
 		wts[n] = wv[n]
 	}
+	reps := map[string]bool{}
 	_, gerr := engine.Call(vm, g, func(env *engine.Env) *engine.Promise {
 		sols = append(sols, "sol "+c11Wire(solTerm, env, name))
+		c11Reps(tmpl, env, reps, 0)
 		vn := newVarNamer()
 		witnessClasses[c11Wire(atom("w").Apply(wts...), env, vn.name)]++
 		return engine.Bool(false)
@@ -317,8 +373,17 @@ func runC11(payload string) string {
 	case len(answers) == 0:
 		outcome = "fail"
 	}
-	return fmt.Sprintf("%s => %s ### nt=%d kind=%s sols=%s classes=%s fv=%s outcome=%s answers=%s",
-		left, right, nt, kind, bucket_c11(len(sols)), bucket_c11(len(witnessClasses)), bucket_c11(nfv), outcome, bucket_c11(len(answers)))
+	var repNames []string
+	for n := range reps {
+		repNames = append(repNames, n)
+	}
+	sort.Strings(repNames)
+	repTag := strings.Join(repNames, "+")
+	if repTag == "" {
+		repTag = "none"
+	}
+	return fmt.Sprintf("%s => %s ### nt=%d kind=%s sols=%s classes=%s fv=%s outcome=%s answers=%s listreps=%s",
+		left, right, nt, kind, bucket_c11(len(sols)), bucket_c11(len(witnessClasses)), bucket_c11(nfv), outcome, bucket_c11(len(answers)), repTag)
 }
 
 func bucket_c11(n int) string {
@@ -769,10 +834,308 @@ func genC11Case(r *rand.Rand, tier string) string {
 	return strings.Join([]string{kind, strings.Join(clauses, " ; "), strings.Join(binds, " ; "), tmpl, goal, inst}, " | ")
 }
 
+// ---------------------------------------------------------------------------
+// list family: instances, witnesses and templates that are LISTS, in every Go representation
+// (see c11Rep): proper lists that are prefixes of each other (setof must order them by the standard
+// order whatever the encoding), and open lists [E1,..,En|T] whose tail variable is shared with another
+// part of the instance, with the witness, or between instances (copies must keep the sharing).
+// All goals stay free of occurs-check problems: linear calls against renamed facts, or variables that
+// are bound to ground terms before they are used again.
+// ---------------------------------------------------------------------------
+
+type c11lg struct {
+	r    *rand.Rand
+	mode int // 0 = slice-backed encodings preferred, 1 = '.'/2 cells, 2 = mixed
+}
+
+// encode a list with the given elements (wire texts) and tail (wNil for a proper list)
+func (g *c11lg) enc(elems []string, tail string) string {
+	r := g.r
+	if len(elems) == 0 {
+		return tail
+	}
+	m := g.mode
+	if m == 2 {
+		m = r.Intn(3)
+		if m == 2 && len(elems) >= 2 {
+			// a prefix in one encoding, the rest in another
+			k := 1 + r.Intn(len(elems)-1)
+			rest := (&c11lg{r: r, mode: r.Intn(2)}).enc(elems[k:], tail)
+			return (&c11lg{r: r, mode: r.Intn(2)}).enc(elems[:k], rest)
+		}
+		m = m % 2
+	}
+	if m == 1 {
+		return wList(tail, elems...)
+	}
+	if tail == wNil && r.Intn(8) != 0 {
+		return wC("$l", elems...)
+	}
+	return wC("$p", append(append([]string{}, elems...), tail)...)
+}
+
+// a proper list of one-character atoms, possibly as a string
+func (g *c11lg) encChars(chars string) string {
+	r := g.r
+	if chars == "" {
+		return wNil
+	}
+	switch r.Intn(4) {
+	case 0:
+		return wC("$s", wA(chars))
+	default:
+		elems := make([]string, len(chars))
+		for i, c := range chars {
+			elems[i] = wA(string(c))
+		}
+		return g.enc(elems, wNil)
+	}
+}
+
+// lists over a small alphabet, many of them prefixes of one another
+func (g *c11lg) prefixPool() []string {
+	r := g.r
+	base := pick(r, []string{"abc", "abcd", "aab", "abz"})
+	var pool []string
+	for i := 0; i <= len(base); i++ {
+		if i > 0 || r.Intn(3) == 0 {
+			pool = append(pool, base[:i])
+		}
+	}
+	pool = append(pool, pick(r, []string{"az", "b", "ab", "a", "ba", "abd"}))
+	if r.Intn(2) == 0 {
+		pool = append(pool, pick(r, []string{"z", "aa", "abcz", "ac"}))
+	}
+	return pool
+}
+
+func (g *c11lg) instArg(next *int) string {
+	r := g.r
+	fresh := func() string { *next++; return wV(*next - 1) }
+	switch k := r.Intn(20); {
+	case k < 16:
+		return fresh()
+	case k < 18:
+		return wC("$p", fresh(), fresh())
+	case k < 19:
+		return wC("$l", fresh(), fresh())
+	default:
+		return wList(fresh(), fresh(), fresh())
+	}
+}
+
+func genC11ListCase(r *rand.Rand, tier string) string {
+	g := &c11lg{r: r, mode: pick(r, []int{0, 0, 0, 1, 2, 2})}
+	next := 6 // V0..V5 are used by the shapes below
+	var clauses []string
+	var tmpl, goal string
+	kind := pick(r, []string{"setof", "setof", "setof", "setof", "bagof", "findall"})
+	caret := func(v int, gl string) string { return wC("^", wV(v), gl) }
+	wrap := func(l string, k string) string { // a template around the list l (and the key k)
+		switch r.Intn(8) {
+		case 0:
+			return wC("-", k, l)
+		case 1:
+			return wC("f", l)
+		case 2:
+			return wC("-", l, k)
+		case 3:
+			return g.enc([]string{l, k}, wNil)
+		case 4:
+			return wC("-", l, l)
+		default:
+			return l
+		}
+	}
+	switch shape := r.Intn(20); {
+	case shape < 5:
+		// A. facts path(Key, List): setof over lists that are prefixes of one another
+		pool := g.prefixPool()
+		keys := []string{wA("n"), wA("m"), wI(1)}[:1+r.Intn(3)]
+		n := 3 + r.Intn(5)
+		if tier == "thorough" {
+			n += r.Intn(4)
+		}
+		for i := 0; i < n; i++ {
+			clauses = append(clauses, wC("path", pick(r, keys), g.encChars(pick(r, pool))))
+		}
+		goal = wC("path", wV(0), wV(1))
+		switch r.Intn(4) {
+		case 0:
+			goal = caret(0, goal)
+		case 1:
+			goal = wC("path", keys[0], wV(1))
+		}
+		tmpl = wrap(wV(1), wV(0))
+	case shape < 8:
+		// B. the lists are given in the goal: member(L, [L1, L2, ...])
+		pool := g.prefixPool()
+		n := 2 + r.Intn(4)
+		items := make([]string, n)
+		for i := range items {
+			items[i] = g.encChars(pick(r, pool))
+			if r.Intn(6) == 0 { // a list of lists
+				items[i] = g.enc([]string{items[i], g.encChars(pick(r, pool))}, wNil)
+			}
+		}
+		goal = wC("member", wV(1), g.enc(items, wNil))
+		tmpl = wrap(wV(1), wA("k"))
+	case shape < 10:
+		// C. strings: char lists and code lists that are prefixes of one another
+		base := pick(r, []string{"abc", "abcd", "aab"})
+		n := 2 + r.Intn(4)
+		items := make([]string, n)
+		codes := r.Intn(3) == 0
+		for i := range items {
+			p := base[:1+r.Intn(len(base))]
+			switch {
+			case codes && r.Intn(2) == 0:
+				items[i] = wC("$c", wA(p))
+			case codes:
+				elems := make([]string, len(p))
+				for j, c := range p {
+					elems[j] = wI(int(c))
+				}
+				items[i] = g.enc(elems, wNil)
+			default:
+				items[i] = g.encChars(p)
+				if r.Intn(2) == 0 {
+					items[i] = wC("$s", wA(p))
+				}
+			}
+		}
+		if r.Intn(2) == 0 {
+			goal = wC("member", wV(1), g.enc(items, wNil))
+		} else {
+			for _, it := range items {
+				clauses = append(clauses, wC("path", wA("n"), it))
+			}
+			goal = wC("path", wV(0), wV(1))
+		}
+		tmpl = wrap(wV(1), wA("k"))
+	case shape < 12:
+		// D. the spine of the instance is completed by an earlier goal
+		pool := g.prefixPool()
+		n := 2 + r.Intn(3)
+		tails := make([]string, n)
+		for i := range tails {
+			tails[i] = g.encChars(pick(r, pool))
+		}
+		prefix := []string{wA("a"), wA("b"), wA("c")}[:1+r.Intn(3)]
+		var second string
+		if r.Intn(3) == 0 {
+			second = wC("append", g.enc(prefix, wNil), wV(2), wV(1))
+		} else {
+			second = wC("=", wV(1), g.enc(prefix, wV(2)))
+		}
+		goal = wC(",", wC("member", wV(2), g.enc(tails, wNil)), second)
+		if r.Intn(4) != 0 {
+			goal = caret(2, goal)
+		}
+		tmpl = wrap(wV(1), wA("k"))
+	case shape < 14:
+		// F. lists as witnesses: the same list in different encodings must fall into one group
+		pool := g.prefixPool()[:3]
+		n := 3 + r.Intn(5)
+		for i := 0; i < n; i++ {
+			gg := &c11lg{r: r, mode: r.Intn(3)}
+			clauses = append(clauses, wC("pw", wI(1+r.Intn(3)), gg.encChars(pick(r, pool))))
+		}
+		goal = wC("pw", wV(0), wV(1))
+		tmpl = pick(r, []string{wV(0), wC("f", wV(0))})
+	default:
+		// E. open lists [E1,..,En|T] whose tail is shared
+		kind = pick(r, []string{"findall", "bagof", "setof", "findall", "bagof", "setof", "setof"})
+		elemsOf := func(tailVar string) []string {
+			n := 2 + r.Intn(3)
+			if r.Intn(8) == 0 {
+				n = 1
+			}
+			es := make([]string, n)
+			for i := range es {
+				es[i] = pick(r, []string{wA("a"), wA("b"), wA("x"), wA("y"), wI(1)})
+				if tailVar != "" && r.Intn(8) == 0 {
+					es[i] = tailVar // the tail also occurs as an element
+				}
+			}
+			return es
+		}
+		openT := func(l, t string) string { // a template that mentions the list and its tail
+			switch r.Intn(8) {
+			case 0:
+				return wC("f", t, l)
+			case 1:
+				return l
+			case 2:
+				return wC("-", wC("-", t, l), t)
+			case 3:
+				return g.enc([]string{l, t}, wNil)
+			default:
+				return wC("-", l, t)
+			}
+		}
+		switch r.Intn(6) {
+		case 0: // L = [a,b|T]
+			goal = wC("=", wV(1), g.enc(elemsOf(wV(2)), wV(2)))
+			tmpl = openT(wV(1), wV(2))
+		case 1, 2: // dl(N, [..|T], T): difference lists in facts; Hole is a free variable or in the template
+			n := 2 + r.Intn(3)
+			for i := 0; i < n; i++ {
+				key := wI(1 + r.Intn(2))
+				if r.Intn(3) == 0 {
+					key = wI(i + 1)
+				}
+				clauses = append(clauses, wC("dl", key, g.enc(elemsOf(wV(0)), wV(0)), wV(0)))
+			}
+			goal = wC("dl", wV(0), wV(1), wV(2))
+			switch r.Intn(5) {
+			case 0:
+				tmpl = wC("-", wV(0), wV(1)) // Hole free
+			case 1:
+				tmpl = wV(1) // N and Hole free
+			case 2:
+				tmpl = openT(wV(1), wV(2))
+			case 3:
+				tmpl = wC("f", wV(2), wV(1), wV(0))
+			default:
+				tmpl = wV(1)
+				goal = caret(0, goal) // Hole free
+			}
+		case 3: // append/3 makes the open list
+			prefix := elemsOf("")
+			var pl string
+			if r.Intn(3) == 0 {
+				pl = wC("$s", wA(pick(r, []string{"ab", "abc", "xy"})))
+			} else {
+				pl = g.enc(prefix, wNil)
+			}
+			goal = wC("append", pl, wV(2), wV(1))
+			tmpl = openT(wV(1), wV(2))
+		case 4: // the template itself is an open list; its tail occurs again in the template
+			goal = wC("member", wV(0), g.enc([]string{wI(1), wI(2), wI(1)}, wNil))
+			l := g.enc([]string{wV(0), pick(r, []string{wA("k"), wV(0)}), wA("z")}[:2+r.Intn(2)], wV(2))
+			tmpl = openT(l, wV(2))
+		default: // two parts of one instance share the tail; instances of one group share it through the witness
+			n := 2 + r.Intn(2)
+			for i := 0; i < n; i++ {
+				clauses = append(clauses, wC("q", pick(r, []string{wA("k"), wA("j")}), g.enc(elemsOf(""), wV(0)), wV(0)))
+			}
+			goal = wC("q", wV(0), wV(1), wV(2))
+			tmpl = pick(r, []string{wV(1), wC("-", wV(1), wV(1)), wC("-", wV(0), wV(1))})
+		}
+	}
+	inst := g.instArg(&next)
+	return strings.Join([]string{kind, strings.Join(clauses, " ; "), "", tmpl, goal, inst}, " | ")
+}
+
 func genC11(r *rand.Rand, n int, tier string) []string {
 	out := make([]string, 0, n)
 	for i := 0; i < n; i++ {
-		out = append(out, genC11Case(r, tier))
+		if r.Intn(3) == 0 {
+			out = append(out, genC11ListCase(r, tier))
+		} else {
+			out = append(out, genC11Case(r, tier))
+		}
 	}
 	return out
 }
@@ -797,7 +1160,7 @@ func runC11Variant(payload string) string {
 	dec1 := func(s string) engine.Term {
 		ts, err := d.terms(s)
 		must(err)
-		return ts[0]
+		return c11Rep(ts[0])
 	}
 	switch f[0] {
 	case "v":
@@ -864,6 +1227,21 @@ func genC11Variant(r *rand.Rand, n int, tier string) []string {
 			nv = 2 + r.Intn(3)
 		}
 		t1 := c11RandTerm(r, 2+r.Intn(3), nv)
+		if r.Intn(4) == 0 {
+			// lists in the Go representations of c11Rep: proper, and open with the tail occurring again
+			lg := &c11lg{r: r, mode: r.Intn(3)}
+			n := 1 + r.Intn(4)
+			es := make([]string, n)
+			for j := range es {
+				es[j] = c11RandTerm(r, r.Intn(2), nv)
+			}
+			tail := wNil
+			if r.Intn(3) != 0 {
+				tail = wV(r.Intn(nv))
+			}
+			l := lg.enc(es, tail)
+			t1 = pick(r, []string{l, wC("-", l, tail), wC("f", tail, l), wC("-", l, l), wC("-", l, t1)})
+		}
 		if r.Intn(5) == 0 {
 			out = append(out, "c | "+t1)
 			continue
